@@ -28,6 +28,17 @@ Proof.
 Qed.
 Print Assumptions c18_min_needs_result.
 
+(* the fat / protein flags of the round-1 results only switch the two validators off: whatever the flags, the
+   table returned is the same one, so every clause below (total, bounds, priority) holds for all four settings *)
+Theorem c18_min_needs_result_any_flags : forall tracked K T pf Kc N r d, min_needs_gen tracked K T pf Kc N r = Ok d ->
+  d = combine (map fst order_table)
+              (map (fun j => tab N (fun m => handoff (needs_cap K T pf) r N j m)) (seq 0 9)).
+Proof.
+  intros t K T pf Kc N r d H. rewrite (min_needs_gen_ok_inv _ _ _ _ _ _ _ _ H).
+  f_equal. apply map_ext. intro j. apply column_as_handoff.
+Qed.
+Print Assumptions c18_min_needs_result_any_flags.
+
 (* position j of the order refers to these round-1 series (outdoor crops = immediate + newly stored) *)
 Theorem c18_eaten_explicit : forall r m, map (fun j => eaten r j m) (seq 0 9) =
   [nth m (e_fish r) 0; nth m (e_meat r) 0; nth m (e_milk r) 0; nth m (e_greenhouse r) 0;
@@ -94,7 +105,7 @@ Print Assumptions c18_priority.
    daily need: the hand-off is always produced *)
 Theorem c18_min_needs_validators_accept : forall K T pf Kc N r,
   r1_nonneg r -> (N <= min_len r)%nat -> 0 <= needs_cap K T pf -> needs_cap K T pf <= Kc * (1 + eps4) ->
-  exists d, min_needs K T pf Kc N r = Ok d.
+  forall tracked, exists d, min_needs_gen tracked K T pf Kc N r = Ok d.
 Proof. exact min_needs_accepts. Qed.
 Print Assumptions c18_min_needs_validators_accept.
 
